@@ -74,6 +74,16 @@ CHECKS = {
           "Lengths around chunk_size/receive_buffer, all compositions into <= 3/4 writes incl. empty writes and a flush, sized with declared L-1/L/L+1 and unsized, shutdown / flush+drop / drop, read buffer sizes 1/chunk/L+1, either half remote, connection cut after every frame. Oracle: bytes read are a prefix of bytes accepted; EOF is reported successfully only for complete streams; over-long writes refused; complete healthy streams fully delivered; no panic and no hang on either side.",
           "A cut makes both directions report end-of-stream / sink error.",
           "DESIGN.md 4/C18"),
+  "C12": ("model_checking",
+          "grid enumeration of server flavours x client mixes x calls + deviation-bounded schedule exploration; execution-log multiset matching (at most once, own caller) and brute-force linearizability search",
+          "Server flavours: by value, ref-mut, shared-mut with/without spawn, shared with/without spawn; 2-3 clients (one local, remote clones) issuing get / slow_get / add (read-yield-write) / #[no_cancel] add_nc / take; connection cut after every frame; the caller of a #[no_cancel] mutating method dropped at every poll while the callee is suspended between its two side effects. Oracle: every Ok result is the result of exactly one execution with those arguments, no execution credited twice, executions <= calls, and a sequential order of the calls respecting real-time order reproduces all results (failed mutating calls may or may not have taken effect).",
+          "Real-time order from the scheduler step counter. History size <= 7 completed calls for the brute-force search.",
+          "DESIGN.md 4/C12"),
+  "C19": ("model_checking",
+          "enumeration of abandonment stages x method kinds x server flavours and failing items x positions, each under deviation-bounded schedule exploration; execution-log oracle",
+          "A's call future dropped before queueing / queued behind another call / at the first or second suspension point / with the reply in flight, or A's connection cut, for a cancellable and a #[no_cancel] method on by-value, ref-mut and shared-mut (spawn on/off) servers; unknown method (newer client trait), over-long request, over-long reply at position 0..2 among three calls. Oracle: cancellable executions stop at the next suspension point once the server has settled, #[no_cancel] ones finish, another client's &mut and &self calls complete afterwards (lock released), serve() is still running, an item failure fails only that call.",
+          "Cancellation is required only after two quiescence periods with the caller gone. Known finding F6 (over-long reply ends serve(), pinned by the suite) is listed in known_findings.json. Mismatched argument types are decoded leniently by the default codec and are not a failing item.",
+          "DESIGN.md 4/C19"),
 }
 
 NOT_YET = "check not built yet in this session (design in DESIGN.md section 4); not claimed"
